@@ -138,7 +138,9 @@ func deepArr(n int) *V {
 var DeepLevels = 1000
 
 // Kinds lists every mutation kind.
-var Kinds = []string{"allof-cycle-inline", "allof-cycle-direct", "path-template-error", "delete", "null", "retype-scalar", "retype-map", "retype-seq", "num-string", "duplicate-key", "rename-collide", "break-escape", "dangling-ref", "self-ref", "huge-number", "negative-number", "big-integer", "deep-nesting", "deep-array", "empty-map", "empty-string", "long-string"}
+var Kinds = []string{"allof-cycle-inline", "allof-cycle-direct", "path-template-error", "delete", "null", "retype-scalar", "retype-map", "retype-seq", "num-string", "duplicate-key", "rename-collide", "break-escape", "dangling-ref", "self-ref", "huge-number", "negative-number", "big-integer", "deep-nesting", "deep-array", "empty-map", "empty-string", "long-string",
+	// response keys outside the forms 100..599, 1XX..5XX, default
+	"response-code:0XX", "response-code:6XX", "response-code:9XX", "response-code:XXX", "response-code:2xx", "response-code:99", "response-code:1000", "response-code:2X", "response-code:٢٠٠", "response-code:-1", "response-code:2XXX", "response-code:Default"}
 
 // At produces the mutant of the given kind at path p, or nil when not applicable.
 func At(root *V, p doctree.Path, kind string) *Mutant {
@@ -190,7 +192,7 @@ func At(root *V, p doctree.Path, kind string) *Mutant {
 					break
 				}
 			}
-			m.Focus = parentPath
+			m.Focus = p // both entries share this path; the relation rule wants the report at one of them
 		}
 	case "rename-collide":
 		// rename this member so that it collides with a sibling after ogen's name normalisation
@@ -240,6 +242,21 @@ func At(root *V, p doctree.Path, kind string) *Mutant {
 			}
 			if nv, err := jsonv.Parse([]byte(txt)); err == nil {
 				ok = setAt(t, p, nv)
+			}
+		}
+	case "response-code:0XX", "response-code:6XX", "response-code:9XX", "response-code:XXX", "response-code:2xx", "response-code:99", "response-code:1000", "response-code:2X", "response-code:٢٠٠", "response-code:-1", "response-code:2XXX", "response-code:Default":
+		if parent != nil && parent.Kind == jsonv.Object && len(parentPath) >= 1 && parentPath[len(parentPath)-1] == "responses" {
+			nn := strings.TrimPrefix(kind, "response-code:")
+			if parent.Get(nn) == nil {
+				for i := range parent.Members {
+					if parent.Members[i].Name == p[len(p)-1] {
+						parent.Members[i].Name = nn
+						m.Focus = append(append(doctree.Path{}, parentPath...), nn)
+						m.Names = append(m.Names, nn)
+						ok = true
+						break
+					}
+				}
 			}
 		}
 	case "path-template-error":
